@@ -6,7 +6,7 @@ Open Scope string_scope.
 
 (* ----------------------------------------- what the translator read from the code *)
 Lemma generated_constants :
-  unrecoverable_errors = ["States.Runtime"; "States.ExecutionTimeout"; "Task.Terminated"] /\
+  unrecoverable_errors = ["States.Runtime"; "States.ExecutionTimeout"; "Task.Terminated"; "States.ExecutionHistoryLimitExceeded"] /\
   retry_default_interval = (1 # 1)%Q /\ retry_default_max = 3%Z /\ retry_default_rate = (2 # 1)%Q /\
   retry_rate_floor = (1 # 1)%Q /\ retry_rate_floor_value = (1 # 1)%Q.
 Proof. repeat split; reflexivity. Qed.
@@ -14,7 +14,7 @@ Proof. repeat split; reflexivity. Qed.
 Lemma unrecoverable_is_spec e : unrecoverable e = spec_unrecoverable e.
 Proof.
   unfold unrecoverable, spec_unrecoverable. destruct generated_constants as [-> _].
-  cbn [existsb]. rewrite orb_false_r, orb_assoc. reflexivity.
+  cbn [existsb]. rewrite orb_false_r, !orb_assoc. reflexivity.
 Qed.
 
 Theorem unrecoverable_never_handled st e cause count raw :
